@@ -55,9 +55,9 @@ def units(tier, seed):
 
 def drivers_for(kind, n, tier):
     if kind == "inflow":
-        return [f"imp:{t}:0" for t in range(n)] + ["pos", "mixed", "mid0", "pos@tiny", "mixed@huge", "pos#int"]
+        return [f"imp:{t}:0" for t in range(n)] + ["pos", "mixed", "mid0", "pos@tiny", "mixed@huge", "pos#int", "pos@huge"]
     if kind == "simple":
-        return ["pos", "mixed", "pos#int"]
+        return ["pos", "mixed", "pos#int", "pos=re"]
     return ["from-inflow", "inc", "dec", "hump", "mid0", "tail0", "hump@tiny", "dec@huge", "hump#int"] + ([f"imp:{t}:0" for t in range(n)] if tier == "thorough" else ["imp:0:0", f"imp:{n-2}:0"])
 
 
@@ -74,6 +74,8 @@ def run_simple(grid, extra, drv, case):
 
     n = len(grid)
     dims = dsm_impl.make_dims(grid, extra)
+    rebalance = drv.endswith("=re")  # computed once, then the outflow is set equal to the inflow and the stock recomputed
+    drv = drv[:-3] if rebalance else drv
     inflow = dsm_impl.driver_series(drv, n, extra)
     outflow = dsm_impl.driver_series("pos2" + ("#int" if drv.endswith("#int") else ""), n, extra)
     if drv.endswith("#int"):  # whole-number flows handed over in integer arrays
@@ -88,6 +90,9 @@ def run_simple(grid, extra, drv, case):
         dsm_impl.fill(s.inflow, inflow, extra)
         dsm_impl.fill(s.outflow, outflow, extra)
     s.compute()
+    if rebalance:
+        dsm_impl.fill(s.outflow, inflow, extra)
+        s.compute()
     return dict(obj=s, stock=dsm_impl.series_from_nd(s.stock.values, extra), inflow=dsm_impl.series_from_nd(s.inflow.values, extra), outflow=dsm_impl.series_from_nd(s.outflow.values, extra))
 
 
@@ -225,7 +230,7 @@ def run_unit(u):
                         if tier == "quick" and ei == 2 and qi not in (1, 3):
                             continue
                         for drv in drivers_for(kind, n, tier):
-                            probe = qi == (1 if tier == "quick" else 0) and pi == 0 and drv in ("pos", "from-inflow") and (tier == "thorough" or ei < 2)
+                            probe = qi == (1 if tier == "quick" else 0) and pi == 0 and drv in ("pos", "from-inflow", "pos@huge") and (tier == "thorough" or ei < 2)
                             oc, f = run_case(kind, grid, li, quad, extra, pair, drv, probe)
                             res["evals"] += 1
                             res["nontrivial"] += 0 if oc.startswith("skipped") else 1
